@@ -228,7 +228,7 @@ namespace c17
     case 1:
       {
         s.cls = "random"; int den = t.range(1, 7);   // keep probability den/8
-        if(nc <= 32) { for(Index i = 0; i < nc; ++i) mask[i] = (int(t.raw() % 8u) < den) ? 1 : 0; }
+        if(nc <= 12) { for(Index i = 0; i < nc; ++i) mask[i] = (int(t.raw() % 8u) < den) ? 1 : 0; }
         else { Rng r(t.raw()); for(Index i = 0; i < nc; ++i) mask[i] = (int(r.below(8)) < den) ? 1 : 0; }
         bool any = false; for(auto x : mask) any = any || x; if(!any) mask[0] = 1;
       }
@@ -381,7 +381,7 @@ namespace c17
     int sites = 31;     // bit 0 start, 1 after assemble (= before the fence wait), 2 inside scatter, 3 finish, 4 inside combine
     int slow_den = 2;   // one thread in slow_den is slow (factor 25)
     int k = 1;
-    long budget_us = 20000;  // per task
+    long budget_us = C17_TSAN ? 3000 : 8000;  // per task
     J json() const { J j = J::obj(); j.set("seed", (long long)seed); j.set("mode", mode); j.set("base_us", base_us); j.set("sites", sites); j.set("slow_den", slow_den); j.set("k", k); return j; }
   };
 
@@ -519,6 +519,22 @@ namespace c17
     std::sort(comb.begin(), comb.end());
     for(std::size_t i = 0; i + 1 < comb.size(); ++i) VF_CHECK(comb[i].second < comb[i + 1].first, tag << ": two combine() calls overlapped in time");
     return st;
+  }
+
+  /// A failure of a timing-dependent oracle (overlap, lost update, TSan) is a genuine observation, but rapidcheck's
+  /// shrinker accepts every candidate that fails once and so drifts towards marginal cases that fail only now and
+  /// then; the final 3-of-3 confirmation would then call a real race "flaky". A failing attempt is therefore repeated
+  /// twice in the same child: reproduced at least once => reported under its own symptom ("mismatch:..."); observed
+  /// only once => still reported, but under the distinct key "flaky-race:" (never silently dropped), which the
+  /// shrinker of a reproducible failure does not follow.
+  template<typename Attempt_> void confirm_in_child(Attempt_ attempt)
+  {
+    std::string e1 = attempt(); if(e1.empty()) return;
+#if !C17_TSAN
+    int again = 0; for(int k = 0; k < 2; ++k) if(!attempt().empty()) ++again;
+    if(again == 0) throw vf::Fail{ "flaky-race:" + e1 + " (seen once, not reproduced in 2 further attempts)" };
+#endif
+    throw vf::Fail{ e1 };
   }
 
   // ---------------------------------------------------------------------------------------------------
